@@ -1,9 +1,11 @@
 #!/bin/bash
-# robust.sh <seed...> : run every claimed check at the given VERIF_SEED values, summarise alarms
+# robust.sh <seed...> : run every claimed check at the given VERIF_SEED values, summarise alarms.
+# Workers use seed+i with stride 16: pick seeds far apart (1 1000001 2000001), neighbouring values revisit the same runs.
 for s in "$@"; do
   for p in $(jq -r '.checks[].property_id' MANIFEST.json); do
     out=$(VERIF_SEED=$s ./check $p quick 2>&1); rc=$?
     echo "seed=$s $p rc=$rc $(echo "$out" | grep -c '^VIOLATION') violations"
     echo "$out" | grep -B1 '^VIOLATION' | grep -v '^VIOLATION\|^--' | cut -c1-260
+    [ $rc -eq 2 ] && echo "$out" | tail -5 | cut -c1-300
   done
 done
